@@ -2,7 +2,7 @@
    queue layout (queue_slots), strict growth of distance along predecessor links, positivity of the
    path counts on reached nodes, and termination within n rounds without a slice-length error. *)
 From Coq Require Import QArith Lia List Arith Bool ZArith Permutation Sorted.
-From BCT Require Import Base.Mat Base.SumQ Base.ListX Model.Between Proofs.BetweenAccum.
+From BCT Require Import Base.Mat Base.SumQ Base.ListX Model.Between Proofs.BetweenAccum Proofs.BetweenReady.
 Import ListNotations.
 Open Scope Z_scope.
 
@@ -567,4 +567,120 @@ Proof.
     rewrite (Hvisnth (n - 1)%nat) by lia.
     replace (n - 1 - sqf st)%nat with (length (vis n st) - 1)%nat by (rewrite vis_length; lia).
     rewrite (nth_last _ O u Hne). exact Hlast.
+Qed.
+
+(* ---------- the queue order is a valid processing order for the accumulation ---------- *)
+Definition potD (st : sst) (v : nat) : Z := match sD st v with Some d => d | None => 0 end.
+
+Lemma queue_ok_pot n u st : queue_ok n u st ->
+  forall w v, (w < n)%nat -> (v < n)%nat -> sP st w v = true -> potD st v < potD st w.
+Proof.
+  intros (front & _ & _ & _ & _ & _ & _ & _ & _ & _ & _ & HP & _) w v Hw Hv E.
+  destruct (HP w v Hw Hv E) as (dw & g & E1 & Hg & E2). unfold potD. rewrite E1, E2. lia.
+Qed.
+
+Lemma queue_ok_order n u st : queue_ok n u st ->
+  to_list n (sQ st) = queue_prefix n st ++ [u] /\
+  NoDup (queue_prefix n st) /\ (forall x, In x (queue_prefix n st) -> (x < n)%nat) /\
+  ~ In u (queue_prefix n st) /\ (forall x, (x < n)%nat -> x <> u -> In x (queue_prefix n st)) /\
+  succ_first n (sP st) (queue_prefix n st).
+Proof.
+  intros Hok. pose proof (queue_ok_perm n u st Hok) as Hperm.
+  destruct Hok as (front & HQ & Hlen & Hqn & Hnf & Hf & Hnv & Hv & Hs & Hlast & Hne & HP & _).
+  destruct (exists_last Hne) as [vis' [z Ez]].
+  assert (z = u) by (rewrite Ez, last_last in Hlast; exact Hlast). subst z.
+  assert (HL : to_list n (sQ st) = (front ++ vis') ++ [u]) by (rewrite HQ, Ez, app_assoc; reflexivity).
+  assert (Hn : length (front ++ vis') = (n - 1)%nat).
+  { pose proof (to_list_length n (sQ st)) as Hl. rewrite HL, app_length in Hl. cbn [length] in Hl. lia. }
+  assert (Hpre : queue_prefix n st = front ++ vis').
+  { unfold queue_prefix. rewrite HL, <- Hn, firstn_app, Nat.sub_diag, firstn_all. cbn [firstn]. apply app_nil_r. }
+  rewrite Hpre.
+  assert (HndL : NoDup ((front ++ vis') ++ [u])).
+  { rewrite <- HL. apply (Permutation_NoDup (Permutation_sym Hperm)), seq_NoDup. }
+  destruct (NoDup_app_inv _ _ HndL) as (Hnd1 & _ & Hdisj).
+  assert (Hlt : forall x, In x ((front ++ vis') ++ [u]) <-> (x < n)%nat).
+  { intros x. rewrite <- HL. split.
+    - intros Hx. apply (Permutation_in _ Hperm), in_seq in Hx. lia.
+    - intros Hx. apply (Permutation_in _ (Permutation_sym Hperm)), in_seq. lia. }
+  split; [exact HL|]. split; [exact Hnd1|]. split; [|split; [|split]].
+  - intros x Hx. apply Hlt, in_app_iff. left; exact Hx.
+  - intros Hu. apply (Hdisj u Hu). left; reflexivity.
+  - intros x Hx Hxu. apply Hlt, in_app_iff in Hx. destruct Hx as [Hx|[Hx|[]]]; [exact Hx|congruence].
+  - intros l1 w l2 E x Hx Hp.
+    assert (Hw : (w < n)%nat). { apply Hlt. rewrite E. apply in_app_iff. left. apply in_app_iff. right. left; reflexivity. }
+    destruct (HP x w Hx Hw Hp) as (dw & g & Ew & Hg & Ex).
+    assert (Hxv : In x (vis n st)) by (apply Hv; split; [exact Hx|congruence]).
+    assert (Hwf : ~ In w front) by (intros H; apply Hf in H; destruct H; congruence).
+    (* locate w inside the filled part *)
+    assert (E' : front ++ vis n st = l1 ++ w :: (l2 ++ [u])).
+    { rewrite Ez, app_assoc, E, <- app_assoc. reflexivity. }
+    apply app_eq_app in E'. destruct E' as [l [[E1 E2]|[E1 E2]]].
+    + destruct l as [|b l]; [|exfalso; apply Hwf; cbn [app] in E2; injection E2 as Eb _; rewrite E1; apply in_app_iff; right; left; symmetry; exact Eb].
+      cbn [app] in E2. rewrite app_nil_r in E1. subst l1.
+      rewrite <- E2 in Hxv. destruct Hxv as [->|Hxv]; [rewrite Ew in Ex; inversion Ex; lia|].
+      exfalso. rewrite <- E2 in Hs. inversion Hs as [|? ? _ Hfa]; subst. rewrite Forall_forall in Hfa.
+      specialize (Hfa x Hxv). rewrite Ew, Ex in Hfa. cbn in Hfa. lia.
+    + rewrite E2 in Hxv. apply in_app_iff in Hxv. destruct Hxv as [Hxv|[->|Hxv]].
+      * rewrite E1. apply in_app_iff. right; exact Hxv.
+      * rewrite Ew in Ex; inversion Ex; lia.
+      * exfalso. rewrite E2 in Hs. replace (l ++ w :: l2 ++ [u]) with ((l ++ [w]) ++ (l2 ++ [u])) in Hs
+          by (rewrite <- app_assoc; reflexivity).
+        pose proof (sorted_app_ge _ _ _ Hs w x) as Hge. cbn beta in Hge.
+        rewrite Ew, Ex in Hge. cbn in Hge.
+        assert (dw + g <= dw); [|lia]. apply Hge; [apply in_app_iff; right; left; reflexivity|exact Hxv].
+Qed.
+
+Lemma queue_ok_ready n u st : queue_ok n u st -> acc_ready n u st.
+Proof.
+  intros Hok. pose proof (queue_ok_perm n u st Hok) as Hperm.
+  destruct (queue_ok_order n u st Hok) as (HL & Hnd & Hlt & Hnu & Hall & Hsf).
+  destruct Hok as (front & _ & _ & _ & _ & _ & _ & _ & _ & _ & _ & HP & HNP).
+  split; [exact Hperm|]. split; [exact HL|]. split.
+  - intros x w Hx Hw Hp. destruct (HP x w Hx Hw Hp) as (dw & g & Ew & Hg & Ex).
+    assert (Hxw : x <> w) by (intros ->; rewrite Ew in Ex; inversion Ex; lia).
+    destruct (Nat.eq_dec w u) as [->|Hwu].
+    + assert (Hxin : In x (queue_prefix n st)) by (apply Hall; assumption).
+      apply in_split in Hxin. destruct Hxin as (a & b & Eab). exists a, b, []. rewrite HL, Eab, <- app_assoc. reflexivity.
+    + assert (Hwin : In w (queue_prefix n st)) by (apply Hall; assumption).
+      apply in_split in Hwin. destruct Hwin as (l1 & l2 & E12).
+      pose proof (Hsf l1 w l2 E12 x Hx Hp) as Hxin. apply in_split in Hxin. destruct Hxin as (a & b & Eab).
+      exists a, b, (l2 ++ [u]). rewrite HL, E12, Eab, <- !app_assoc. reflexivity.
+  - intros w v Hw Hv E. destruct (HP w v Hw Hv E) as (dw & g & _ & _ & Ex). apply HNP; [exact Hw|congruence].
+Qed.
+
+Theorem queue_slots_w_full n G u : (u < n)%nat -> nonneg_len n G ->
+  exists st, source_w n G u = Some st /\ queue_ok n u st /\
+    Permutation (to_list n (sQ st)) (seq 0 n) /\
+    (forall i, (i < n)%nat -> ((i < sqf st)%nat <-> sD st (sQ st i) = None)) /\
+    (forall i j, (sqf st <= i)%nat -> (i <= j)%nat -> (j < n)%nat -> xle (sD st (sQ st j)) (sD st (sQ st i))) /\
+    sQ st (n - 1)%nat = u.
+Proof.
+  intros Hu HG. destruct (queue_slots_w n G u Hu HG) as (st & E & Hok). exists st.
+  destruct (queue_ok_slots n u st Hok) as (H1 & H2 & H3).
+  split; [exact E|]. split; [exact Hok|]. split; [apply (queue_ok_perm n u st Hok)|].
+  split; [exact H1|]. split; [exact H2|]. apply H3. lia.
+Qed.
+
+(* ---------- the weighted routines as a whole ---------- *)
+Open Scope Q_scope.
+Theorem ebc_wei_pairsums n G : nonneg_len n G ->
+  exists EBC BC, edge_betweenness_wei n G = Some (EBC, BC) /\
+    (forall w, (w < n)%nat -> BC w == sumQ (fun u => dep_node n (source_w n G) u w) n) /\
+    (forall v w, (v < n)%nat -> (w < n)%nat -> EBC v w == sumQ (fun u => dep_edge n (source_w n G) u v w) n).
+Proof.
+  intros HG. unfold edge_betweenness_wei.
+  destruct (sources_pairsums n (source_w n G)) as (BC & EBC & Es & H1 & H2).
+  { intros u Hu. destruct (queue_slots_w n G u Hu HG) as (st & E & Hok). exists st. split; [exact E|].
+    apply queue_ok_ready. exact Hok. }
+  rewrite Es. exists EBC, BC. auto.
+Qed.
+
+Theorem bc_wei_pairsums n G : nonneg_len n G ->
+  exists BC, betweenness_wei n G = Some BC /\
+    (forall w, (w < n)%nat -> BC w == sumQ (fun u => dep_node n (source_w n G) u w) n).
+Proof.
+  intros HG. destruct (ebc_wei_pairsums n G HG) as (EBC & BC & E & H1 & _).
+  pose proof (ebc_node_vector_eq_bc_wei n G) as Hsim. rewrite E in Hsim.
+  destruct (betweenness_wei n G) as [BC'|]; [|contradiction].
+  exists BC'. split; [reflexivity|]. intros w Hw. rewrite <- (Hsim w). apply H1. exact Hw.
 Qed.
